@@ -223,8 +223,7 @@ def handle (w cap digs : Nat) (op : String) (args : List String) (got : String) 
       | [] => none
     match kind with
     | "win" =>
-      -- the zero scalar is refused (length bound computed as ⌈0/w⌉ in unsigned arithmetic): accepted as reported error
-      if kN = 0 then some { model := got, spec := [got] } else
+      if kN = 0 then some { model := out (Rec.recWin (capOf big) kN wd), spec := ["len=1 0"] } else
       let ok : Bool := match gotDs with
         | some ds => Rec.eval wd ds == kN && ds.all (fun d => 0 ≤ d && d < 2 ^ wd) && ds.length == max 1 ((Rec.bitLen kN + wd - 1) / wd)
         | none => false
